@@ -10,7 +10,7 @@ From OG Require Import C01.Model.
 Import ListNotations.
 
 Record cimage := mkci { ci_acked : nat; ci_inflight : option nat; ci_chain : list (list (list nat)); ci_obs : list (key * Z) }.
-Record ccase := mkcc { cc_batches : list batch; cc_images : list cimage }.
+Record ccase := mkcc { cc_batches : list batch; cc_drops : list nat; cc_images : list cimage }.
 
 Definition lookup (obs : list (key * Z)) (k : key) : option Z :=
   match find (fun e => key_eqb (fst e) k) obs with Some e => Some (snd e) | None => None end.
@@ -22,19 +22,27 @@ Definition matches (st : store) (obs : list (key * Z)) (univ : list key) : bool 
 
 Definition replayed (bs : list batch) (parts : list (list nat)) : list batch :=
   map (fun i => nth i bs []) (replay (total parts) parts).
-Definition current_store (bs : list batch) (im : cimage) : store :=
-  fold_left (fun st parts => over st (lww (replayed bs parts))) (ci_chain im) (lww (firstn (ci_acked im) bs)).
+(* the acknowledged writes that count: those after the last acknowledged DROP MEASUREMENT (one measurement) *)
+Definition acked_batches (bs : list batch) (drops : list nat) (acked : nat) : list batch :=
+  let start := fold_left (fun acc d => if Nat.ltb d acked then Nat.max acc (S d) else acc) drops 0 in
+  skipn start (firstn acked bs).
+Definition current_store (bs : list batch) (drops : list nat) (im : cimage) : store :=
+  fold_left (fun st parts => over st (lww (replayed bs parts))) (ci_chain im) (lww (acked_batches bs drops (ci_acked im))).
+(* every observed cell carries the value the store has (a not yet acknowledged drop may have removed any part) *)
+Definition submatches (st : store) (obs : list (key * Z)) : bool :=
+  forallb (fun e => optz_eqb (st (fst e)) (Some (snd e))) obs.
 
-Definition image_code (bs : list batch) (im : cimage) : nat :=
+Definition image_code (bs : list batch) (drops : list nat) (im : cimage) : nat :=
   let univ := universe bs (ci_obs im) in
-  let base := lww (firstn (ci_acked im) bs) in
+  let base := lww (acked_batches bs drops (ci_acked im)) in
   let rep := matches base (ci_obs im) univ ||
              match ci_inflight im with
-             | Some i => matches (apply_batch base (nth i bs [])) (ci_obs im) univ
+             | Some i => if existsb (Nat.eqb i) drops then submatches base (ci_obs im)
+                         else matches (apply_batch base (nth i bs [])) (ci_obs im) univ
              | None => false
              end in
-  let cur := matches (current_store bs im) (ci_obs im) univ in
+  let cur := matches (current_store bs drops im) (ci_obs im) univ in
   (if rep then 1 else 0) + (if cur then 2 else 0).
 
-Definition case_codes (c : ccase) : list nat := map (image_code (cc_batches c)) (cc_images c).
+Definition case_codes (c : ccase) : list nat := map (image_code (cc_batches c) (cc_drops c)) (cc_images c).
 Definition all_codes (cs : list ccase) : list (list nat) := map case_codes cs.
